@@ -125,8 +125,8 @@ def _main(a, prop, seed, t0):
     if not a.no_rt and hasattr(mod, 'RT') and mod.RT:
         os.makedirs(os.path.join(ROOT, 'replays', prop), exist_ok=True)
         outp = os.path.join(ROOT, 'replays', prop, '.rt_result.json')
-        rt = run_rt(prop, tier, seed, focus if (failed or missing or info['unsupported']) else None, outp,
-                    budget=('refute' if (failed or missing or info['unsupported']) else None))
+        need_refute = bool([n for n in failed if n not in known] or missing or info['unsupported'])
+        rt = run_rt(prop, tier, seed, focus if need_refute else None, outp, budget=('refute' if need_refute else None))
         try: os.unlink(outp)
         except OSError: pass
     # ---- verdict
